@@ -88,7 +88,9 @@ class Addr:
         """
         callback done via callLater
         """
-        del self.map.addr[self.name]
+        # we're stored under our name and our address
+        for k in [k for (k, v) in self.map.addr.items() if v is self]:
+            del self.map.addr[k]
         self.map.notify("addrmap_expired", *[self.name], **{})
 
 
@@ -115,7 +117,12 @@ class AddrMap(object):
 
         params = shlex.split(update)
         if params[0] in self.addr:
-            self.addr[params[0]].update(*params)
+            a = self.addr[params[0]]
+            # the address may have changed; keep its key in step
+            for k in [k for (k, v) in self.addr.items() if v is a and k != params[0]]:
+                del self.addr[k]
+            self.addr[params[1]] = a
+            a.update(*params)
 
         else:
             a = Addr(self)
